@@ -20,6 +20,7 @@ mod label;
 mod memconv;
 mod specdec;
 mod specenc;
+mod strsink;
 mod util;
 mod valid;
 
@@ -42,6 +43,7 @@ const MODULES: &[(GenFn, ReplayFn)] = &[
     (cfgcorpus::generate, cfgcorpus::replay),
     (specdec::generate, specdec::replay),
     (specenc::generate, specenc::replay),
+    (strsink::generate, strsink::replay),
 ];
 
 fn main() {
